@@ -12,6 +12,7 @@ import (
 
 	"rscheck/cfgq"
 	"rscheck/core"
+	"rscheck/pat"
 	"rscheck/rules/c07"
 )
 
@@ -128,19 +129,43 @@ func (x *rx) summary(hs *wscope, p wprop, outcome *bool, depth int) bool {
 	return w == nil
 }
 
-// viaLocal: some argument is a plain local variable (a value carried outside the element), none is a field of
-// the element in the wrong position or another expression.
-func (x *rx) viaLocal(args []ast.Expr) bool {
-	local := false
-	for _, a := range args {
-		switch e := c07.Strip(x.info, a).(type) {
-		case *ast.Ident:
-			if v, ok := c07.Obj(x.info, e).(*types.Var); ok && !v.IsField() && v.Pkg() != nil && v.Parent() != v.Pkg().Scope() {
-				local = true
-			}
+// argsAre judges the arguments of a command against the fields of the element they must carry. ok: every
+// argument is the right field (directly or through a local that is still fresh at the call). unknown: none is
+// definitely wrong, but some argument is a local whose value is not followed (computed, re-assigned or possibly
+// stale); a local bound once to another field of the element or to a constant is definitely wrong.
+func (x *rx) argsAre(g *cfgq.Graph, at cfgq.Point, ele types.Object, args []ast.Expr, names ...string) (ok, unknown bool) {
+	ok = true
+	wrong := false
+	for i, a := range args {
+		if x.eleFieldAt(g, at, a, ele, names[i]) {
+			continue
+		}
+		ok = false
+		id, isID := c07.Strip(x.info, a).(*ast.Ident)
+		var v *types.Var
+		isVar := false
+		if isID {
+			v, isVar = c07.Obj(x.info, id).(*types.Var)
+		}
+		if !isVar || v.IsField() || v.Pkg() == nil || v.Parent() == v.Pkg().Scope() {
+			wrong = true // not a local: the expression itself is not the field
+			continue
+		}
+		d := pat.DefOf(x.info, id)
+		if d == nil {
+			unknown = true
+			continue
+		}
+		d = c07.Strip(x.info, d)
+		if tv, has := x.info.Types[d]; has && tv.Value != nil {
+			wrong = true
+		} else if sel, isSel := d.(*ast.SelectorExpr); isSel && c07.Obj(x.info, sel.X) == ele && !x.eleField(d, ele, names[i]) {
+			wrong = true
+		} else {
+			unknown = true
 		}
 	}
-	return local
+	return ok, unknown && !wrong
 }
 
 type wsite struct {
